@@ -19,7 +19,9 @@ T = {
     caught_by="C01.reserve_eq_held, C01.liquidity_eq_sum and the poolBook correspondence, in scenario c01-dust-fee-sweep",
     history="MISSED by the first version of the check (random histories never hit a fee conversion that truncates to 0 on a pool "
             "whose state had drifted); scenario c01-dust-fee-sweep (fresh balanced oracle pool, 47 swaps with fees of 1..12 base "
-            "units) and a small-fee swap stream were added; caught since"),
+            "units) and a small-fee swap stream were added; caught since. NO LONGER A VIOLATION since fix 78eb247: the change made a dust "
+            "conversion fail after it had applied itself to the caller's in-memory pool, and 78eb247 restores that pool after any failed "
+            "conversion — the author's demonstration passes with the change applied on the repaired tree (re-run on a scratch worktree)"),
  "C02-1": dict(
     change="x/amm/types/pool_exit_pool.go ExitPool: early return when the exiting coins are empty",
     needs="an exit of so few shares that every asset's payout truncates to 0 (dust exit): shares are burnt but pool total shares are not reduced",
